@@ -385,6 +385,8 @@ class Cases:
             return None
         if body.arg_count != len(bound) or len(body.blocks) > 200:
             return None
+        # a reference to a known value is passed as that value: the caller's place means nothing in the callee
+        bound = [("ref", v[1]) if isinstance(v, tuple) and v[0] == "ref" and len(v) == 3 and is_known(mir.strip_refs(v)) else v for v in bound]
         inputs = {}
         for i, v in enumerate(bound):
             inputs[body.local_name(i + 1)] = v
